@@ -174,6 +174,18 @@ def prepare(slot, harnesses):
     injected = {}
     for h in harnesses:
         injected.setdefault(h["file"], h["target"])
+    # `//! requires: other.rs` = sibling harness module whose helpers are reused
+    for hf in list(injected):
+        for line in open(hf).read().splitlines()[:10]:
+            m = re.match(r"^//!\s*requires:\s*(\S+)", line)
+            if m:
+                dep = os.path.join(HARNESS_DIR, m.group(1))
+                tgt = None
+                for l2 in open(dep).read().splitlines()[:10]:
+                    m2 = re.match(r"^//!\s*target:\s*(\S+)", l2)
+                    if m2:
+                        tgt = m2.group(1)
+                injected.setdefault(dep, tgt)
     for hf, target in injected.items():
         base = os.path.basename(hf)
         dst = os.path.join(hdir, base)
@@ -212,7 +224,9 @@ def run_kani(slot, names, per_harness_timeout, total_timeout, extra=(), jobs=Non
     jobs = jobs or max(1, min(NCPU, len(names)))
     cmd = ["cargo", "kani", "--lib", "-Z", "stubbing", "-Z", "unstable-options",
            "--target-dir", slot.target, "--output-format", "terse",
-           "--harness-timeout", f"{per_harness_timeout}s", "-j", str(jobs)]
+           "--harness-timeout", f"{per_harness_timeout}s"]
+    if jobs > 1:
+        cmd += ["-j", str(jobs)]
     for n in names:
         cmd += ["--harness", n]
     cmd += ["--exact"]
@@ -454,7 +468,7 @@ def run_property(slot, prop, tier, seed, hs, t0, a):
         log(f"[{prop}] FAILED: {[(n, [fc['desc'] for fc in fcs][:3]) for n, fcs in failing]}; extracting counterexamples "
             f"for {[n for n, _ in todo]}")
         pout, prc, _ = run_kani(slot, [full_name(byname[n]) for n, _ in todo], per_h, per_h + 600,
-                                extra=["-Z", "concrete-playback", "--concrete-playback=print"])
+                                extra=["-Z", "concrete-playback", "--concrete-playback=print"], jobs=1)
         with open(os.path.join(CACHE, "logs", f"{prop}.{tier}.playback.log"), "w") as f:
             f.write(pout)
         all_tests = extract_playback_tests(pout)
